@@ -291,18 +291,21 @@ def bufRealloc (b : Buf) (len : Nat) : BufOut :=
 /-- (b->size & ~1uL) << 1 -/
 def bsize2x (size : Nat) : Nat := (size / 2 * 2) * 2
 
+/-- `x - 1` in size_t -/
+def decSz (x : Nat) : Nat := wrapSz (x + uszMax)
+
 /-- buffer_string_prepare_copy() -/
 def prepareCopy (b : Buf) (n : Nat) : BufOut :=
   let b := { b with used := 0 }
   if n < b.size then .ok b
-  else bufRealloc b (if bsize2x b.size > n then bsize2x b.size - 1 else n)   -- buffer_alloc_replace
+  else bufRealloc b (if bsize2x b.size > n then decSz (bsize2x b.size) else n)   -- buffer_alloc_replace
 
 /-- buffer_string_prepare_append_resize() -/
 def prepareAppendResize (b : Buf) (n : Nat) : BufOut :=
   if b.used < 2 then prepareCopy b n
   else
     let d := wrapSz (bsize2x b.size + (uszMax + 1) - b.used)      -- bsize2x - b->used (size_t)
-    let req := if d > n then bsize2x b.size - 1 else wrapSz (b.used + n)
+    let req := if d > n then decSz (bsize2x b.size) else wrapSz (b.used + n)
     if !(req ≥ b.used) then .abort                                 -- force_assert(req_size >= b->used)
     else bufRealloc b req
 
@@ -346,66 +349,93 @@ def flagPadded : UInt8 := 0x08
 def flagPriority : UInt8 := 0x20
 def has (flags f : UInt8) : Bool := flags &&& f ≠ 0
 
-inductive LenOut
-  | ub (what : String)
-  | protoErr
-  | ok (off : Nat) (alen : Nat)     -- fragment / data = frame bytes [9+off, 9+off+alen)
-deriving Repr, DecidableEq
-
-/-- h2_recv_headers(): padding / priority length checks.  `flen` = frame length,
-    `pad` = s[9] (read only when PADDED). -/
-def h2HeadersLen (flen : Nat) (flags : UInt8) (pad : Nat) : LenOut :=
-  let (off, alenR) : Nat × R Nat :=
-    if has flags flagPadded then
-      if flen < 1 + pad then (1, .ub "")           -- placeholder, replaced below
-      else (1, .ok (flen - (1 + pad)))
-    else (0, .ok flen)
-  if has flags flagPadded && flen < 1 + pad then .protoErr
-  else
-    match alenR with
-    | .ub w => .ub w
-    | .ok alen =>
-      if has flags flagPriority then
-        if alen < 5 then .protoErr else .ok (off + 5) (alen - 5)
-      else .ok off alen
-
-/-- h2_recv_data(): `if (pad >= len) error; alen -= 1 + pad` -/
-def h2DataLen (len : Nat) (flags : UInt8) (pad : Nat) : LenOut :=
-  if has flags flagPadded then
-    if pad ≥ len then .protoErr else .ok 1 (len - (1 + pad))
-  else .ok 0 len
-
 def u24 (bs : Bytes) (i : Nat) : Nat :=
   (bs.getD i 0).toNat * 65536 + (bs.getD (i + 1) 0).toNat * 256 + (bs.getD (i + 2) 0).toNat
 def u32be (bs : Bytes) (i : Nat) : Nat :=
   (bs.getD i 0).toNat * 16777216 + u24 bs (i + 1)
 def u31be (bs : Bytes) (i : Nat) : Nat := u32be bs i % 2147483648
 
+inductive LenOut
+  | ub (what : String)
+  | protoErr
+  | ok (off : Nat) (alen : Nat)     -- fragment / data = frame bytes [9+off, 9+off+alen)
+deriving Repr, DecidableEq
+
+/-- unsigned subtraction `a -= b` that the code performs only after a guard -/
+def subU (a b : Nat) (what : String) : R Nat := if b ≤ a then .ok (a - b) else .ub what
+
+/-- h2_recv_headers(): padding / priority length checks.  `flen` = frame length,
+    `pad` = s[9] (used only when PADDED).  Result: offset of the header block fragment in the
+    payload and its length `alen`. -/
+def h2HeadersLen (flen : Nat) (flags : UInt8) (pad : Nat) : LenOut :=
+  let padded := has flags flagPadded
+  if padded && flen < 1 + pad then .protoErr                -- if (alen < 1 + pad) error
+  else
+    match (if padded then subU flen (1 + pad) "alen -= 1+pad" else R.ok flen) with
+    | .ub w => .ub w
+    | .ok alen =>
+      let off := if padded then 1 else 0
+      if has flags flagPriority then
+        if alen < 5 then .protoErr                          -- if (alen < 5) error
+        else
+          match subU alen 5 "alen -= 5" with
+          | .ub w => .ub w
+          | .ok alen' => .ok (off + 5) alen'
+      else .ok off alen
+
+/-- h2_recv_data(): `if (pad >= len) error; alen -= 1 + pad` -/
+def h2DataLen (len : Nat) (flags : UInt8) (pad : Nat) : LenOut :=
+  if has flags flagPadded then
+    if pad ≥ len then .protoErr
+    else
+      match subU len (1 + pad) "alen -= 1+pad" with
+      | .ub w => .ub w
+      | .ok alen => .ok 1 alen
+  else .ok 0 len
+
+/-- classification of a HEADERS frame by h2_recv_headers() before any HPACK decoding:
+    `true` = connection error PROTOCOL_ERROR (even stream id, bad padding, short priority
+    block, stream depending on itself) -/
+def h2HeadersEarly (cid : Nat) (frame : Bytes) : R Bool :=
+  let flen := frame.length - 9
+  let flags := frame.getD 4 0
+  let id := u31be frame 5
+  if id % 2 = 0 then .ok true
+  else
+    match h2HeadersLen flen flags (frame.getD 9 0).toNat with
+    | .ub w => .ub w
+    | .protoErr => .ok true
+    | .ok off _ =>
+      if has flags flagPriority then
+        let dep := u32be frame (9 + off - 5)
+        .ok (dep = id && id > cid)
+      else .ok false
+
 inductive ContOut
   | ub (what : String)
-  | incomplete (need : Nat)                    -- returns n+9 / n : wait for more data
+  | incomplete (need : Nat) (calm : Bool)      -- returns n+9 / n : wait for more data
   | goaway (code : Nat)                        -- returns 0
   | merged (m : Nat) (buf : Bytes) (calm : Bool)   -- returns m; `calm` = GOAWAY(NO_ERROR) after 32 frames
 deriving Repr
 
 /-- scanning loop of h2_recv_continuation(): returns the offset after the last
     CONTINUATION frame and the number of frames, or the early outcome -/
-def contScan (fsize id : Nat) (buf : Bytes) : Nat → Nat → Nat → Sum ContOut (Nat × Nat)
-  | 0, _, _ => .inl (.ub "fuel")
+def contScan (fsize id : Nat) (buf : Bytes) : Nat → Nat → Nat → Sum (ContOut × Nat) (Nat × Nat)
+  | 0, _, loops => .inl (.ub "fuel", loops)
   | fuel + 1, n, loops =>
-    if n + 9 > u32Max then .inl (.ub "n+9 wraps")
-    else if buf.length < n + 9 then .inl (.incomplete (n + 9))
-    else if buf.getD (n + 3) 0 ≠ 9 then .inl (.goaway 1)
+    if n + 9 > u32Max then .inl (.ub "n+9 wraps", loops)
+    else if buf.length < n + 9 then .inl (.incomplete (n + 9) false, loops)
+    else if buf.getD (n + 3) 0 ≠ 9 then .inl (.goaway 1, loops)
     else
       let flags := buf.getD (n + 4) 0
       let flen := u24 buf n
-      if id ≠ u32be buf (n + 5) then .inl (.goaway 1)
-      else if flen > fsize then .inl (.goaway 6)
+      if id ≠ u32be buf (n + 5) then .inl (.goaway 1, loops)
+      else if flen > fsize then .inl (.goaway 6, loops)
       else
         let n' := n + 9 + flen
-        if n' > u32Max then .inl (.ub "n wraps")
-        else if n' ≥ Extracted.h2ContCap then .inl (.goaway 6)
-        else if buf.length < n' then .inl (.incomplete n')
+        if n' > u32Max then .inl (.ub "n wraps", loops)
+        else if n' ≥ Extracted.h2ContCap then .inl (.goaway 6, loops)
+        else if buf.length < n' then .inl (.incomplete n' false, loops)
         else if has flags flagEndHeaders then .inr (n', loops + 1)
         else contScan fsize id buf fuel n' (loops + 1)
 
@@ -436,7 +466,8 @@ def h2Cont (fsize : Nat) (buf : Bytes) : ContOut :=
   let n0 := 9 + flen0
   let id := u31be buf 5
   match contScan fsize id buf (buf.length + 1) n0 0 with
-  | .inl o => o
+  | .inl (.incomplete need _, loops) => .incomplete need (loops ≥ 32)
+  | .inl (o, _) => o
   | .inr (_, loops) =>
     let flags0 := buf.getD 4 0
     let padded := has flags0 flagPadded
